@@ -1004,6 +1004,35 @@ func replicas(c Cfg, in, out string, seed int64, nbatch int) {
 					}
 				}
 			}
+			// replica D: a replica that has a caller of its own waiting - registered, its entry not applied yet - while it
+			// applies the entries proposed through replica A: nothing of theirs may reach that caller
+			{
+				dr := storage.NewVerifPartitionSM(c.Index.New(u))
+				for i := range logOps {
+					waiter := dr.VerifPendingCaller()
+					ev := revent{Ev: "apply", Hid: hid, R: "D", Idx: i + 1}
+					fill(&ev, logOps[i])
+					out := dr.ApplyBytes(data[i])
+					ev.Res = "unobserved"
+					select {
+					case <-waiter:
+						ev.Res = "misdelivered"
+					default:
+					}
+					if out.Panic != "" {
+						ev.Res = "panic"
+					} else if out.ProcessErr != "" {
+						ev.Res = "fatal"
+					}
+					ev.Errs = [][]interface{}{}
+					st, _ := hx.Project(dr.Index(), u, c.Keys)
+					ev.St = &st
+					enc.Encode(ev)
+					if ev.Res == "panic" || ev.Res == "fatal" {
+						break
+					}
+				}
+			}
 			for cut := 0; cut <= len(logOps); cut++ {
 				froms := []int{0}
 				if cut >= 1 {
